@@ -118,6 +118,15 @@ var asgUniverse = []string{
 	"(nm 0 %C3%84 (sl int))",
 }
 
+// interface types next to types that implement them (0b79109: a type that merely implements an interface
+// does not share the function generated for the interface type; identical interface types do)
+var ifaceUniverse = []string{
+	"error", "(p (nmm 0 MyErr (st int) Error))", "(nmm 0 MyErr (st int) Error)", "iface", "(nm 0 Any iface)", "(nm 1 Any iface)",
+	"(if String)", "(nm 0 Stringer (if String))", "(nmm 0 T1 int String)", "(p (nmm 0 T1 int String))",
+	"(if Error String)", "(nmm 0 Both (st string) Error String)", "(nm 0 Err2 (if Error))", "(if Error)",
+	"int", "string", "(sl int)", "(nm 0 A (sl int))", "(p (nmm 0 Both (st string) Error String))",
+}
+
 func (g *t3gen) typeList(u []string) string {
 	n := 1
 	switch x := g.r.Intn(20); {
@@ -262,10 +271,12 @@ func (g *t3gen) sorts(n int) {
 }
 
 func (g *t3gen) eqs(n int) {
-	all := append(append([]string(nil), idUniverse...), asgUniverse...)
-	for i := 0; i < len(asgUniverse); i++ {
-		for j := 0; j < len(asgUniverse); j++ {
-			g.emit("eq", fmt.Sprintf("eq (%s) (%s)", asgUniverse[i], asgUniverse[j]))
+	all := append(append(append([]string(nil), idUniverse...), asgUniverse...), ifaceUniverse...)
+	for _, u := range [][]string{asgUniverse, ifaceUniverse} {
+		for i := 0; i < len(u); i++ {
+			for j := 0; j < len(u); j++ {
+				g.emit("eq", fmt.Sprintf("eq (%s) (%s)", u[i], u[j]))
+			}
 		}
 	}
 	for i := 0; i < n; i++ {
@@ -307,6 +318,8 @@ func T3Lines(r *rand.Rand, thorough bool) ([]string, T3Stats) {
 	g.exhaustive("tm-exh-asg", asgTypeLists, k)
 	g.random("tm-rnd-id", idUniverse, 3000*n)
 	g.random("tm-rnd-asg", asgUniverse, 3000*n)
+	g.random("tm-rnd-iface", ifaceUniverse, 3000*n)
+	g.exhaustive("tm-exh-iface", []string{"error", "(p (nmm 0 MyErr (st int) Error))", "iface"}, k-1)
 	g.sorts(400 * n)
 	g.eqs(1000 * n)
 	g.imports(300 * n)
